@@ -352,6 +352,51 @@ def _codec_ok(c: ast.Call, repo: Repo, rel: str) -> bool:
     return isinstance(arg, ast.Name) and arg.id == 'IO_BYTES_ENCODING'
 
 
+_MUT_METHODS = {'append', 'appendleft', 'extend', 'extendleft', 'insert', 'pop', 'popleft', 'clear', 'remove', 'update', 'add', 'discard', 'sort', 'reverse', 'setdefault'}
+
+
+def rule_instance_state(rep: Report, repo: Repo) -> None:
+    """a device's queue / buffer belongs to ONE device: a container bound at class level is one object for every instance - what a first device
+    left in it (half a keycode, an unflushed byte) is served to the next one"""
+    rep.rule('C17.INSTANCE-STATE', 'no io-device class binds a mutable container (list / dict / set / deque / bytearray, literal or constructor call) at '
+             'class level and then changes it in place through `self` in a method: every queue and buffer is created per instance', 4)
+    n = 0
+    for rel in sorted({r for r, _ in PACKERS} | {D + 'KeyboardIO.py', D + 'BrokenIO.py', D + 'IODevice.py', D + 'ScreenIO.py'}):
+        if not repo.exists(rel):
+            continue
+        for cls in [c for c in repo.mod(rel).body if isinstance(c, ast.ClassDef)]:
+            n += 1
+            shared = {}
+            for st in cls.body:
+                tgts = st.targets if isinstance(st, ast.Assign) else [st.target] if isinstance(st, ast.AnnAssign) and st.value is not None else []
+                val = getattr(st, 'value', None)
+                if isinstance(val, (ast.List, ast.Dict, ast.Set, ast.ListComp, ast.DictComp, ast.SetComp)) or (
+                        isinstance(val, ast.Call) and dotted(val.func).split('.')[-1] in ('list', 'dict', 'set', 'deque', 'bytearray', 'defaultdict', 'OrderedDict')):
+                    for t in tgts:
+                        if isinstance(t, ast.Name):
+                            shared[t.id] = st
+            bad = []
+            for name_, st in shared.items():
+                rebound_in_init = any(isinstance(a, (ast.Assign, ast.AnnAssign)) and any(norm(t) == f'self.{name_}' for t in (a.targets if isinstance(a, ast.Assign) else [a.target]))
+                                      for m in cls.body if isinstance(m, ast.FunctionDef) and m.name == '__init__' for a in ast.walk(m))
+                if rebound_in_init:
+                    continue
+                for m in [m for m in cls.body if isinstance(m, ast.FunctionDef)]:
+                    for x in ast.walk(m):
+                        if isinstance(x, ast.Call) and isinstance(x.func, ast.Attribute) and x.func.attr in _MUT_METHODS and norm(x.func.value) == f'self.{name_}':
+                            bad.append(f'{name_} (bound at class level, line {st.lineno}) is changed by self.{name_}.{x.func.attr}(..) in {m.name}')
+                        elif isinstance(x, (ast.Assign, ast.AugAssign)) and any(isinstance(t, ast.Subscript) and norm(t.value) == f'self.{name_}'
+                                                                               for t in (x.targets if isinstance(x, ast.Assign) else [x.target])):
+                            bad.append(f'{name_} (bound at class level, line {st.lineno}) gets an element stored through self in {m.name}')
+                        elif isinstance(x, ast.AugAssign) and norm(x.target) == f'self.{name_}':
+                            bad.append(f'{name_} (bound at class level, line {st.lineno}) is extended in place (`+=`) through self in {m.name}')
+            rep.check(not bad, 'C17.INSTANCE-STATE', f'{rel.split("/")[-1]}:{cls.name}', bad[0] + ': one object shared by every device of the class' if bad else
+                      f'class-level containers: {sorted(shared) or "none"}; none is changed in place through self', f'{rel}:{cls.lineno} {cls.name}',
+                      expected='queues and buffers created in __init__')
+    if n < 4:
+        raise AnalysisError(f'C17.INSTANCE-STATE: {n} io-device classes found (at least 4 confirmed by hand)')
+
+
 def rule_codec(rep: Report, repo: Repo) -> None:
     rep.rule('C17.CODEC', 'bytes cross the str boundary only through the byte-transparent codec: IO_BYTES_ENCODING maps code point n to '
              'byte n for every n < 256, every .encode / .decode of the io devices (and of the quickstart comparison of device output) '
@@ -414,6 +459,7 @@ def check(rep: Report, repo: Optional[Repo] = None) -> None:
     rule_incomplete(rep, repo)
     rule_kbd(rep, repo)
     rule_codec(rep, repo)
+    rule_instance_state(rep, repo)
 
 
 MANIFEST = dict(
